@@ -30,13 +30,15 @@ OS scheduling on the unchanged tree (--force-rooted / --force-unrooted); the sch
 dependent configurations (implicit rooting of the sources with idle workers) are covered
 deterministically by (a).
 
-Left out: use_tree_weights=False (TreeArray does not forward it to its distribution: a C05
-finding, recorded there); real OS scheduling / Queue delivery (N/A clause of DESIGN.md); settings-
+(use_tree_weights=False on weighted pools was left out while TreeArray did not forward the flag to its distribution -- a C05
+finding, repaired in cee52ed6; it is driven since: scope settings<=2 and the random histories.)
+Left out: real OS scheduling / Queue delivery (N/A clause of DESIGN.md); settings-
 incompatible merges (the statement allows them to fail); TreeArray.__delitem__/clear/...
 (NotImplementedError by design); the partial-leafset pool is
 rooted only (unrooted split bitmasks are normalised per tree leaf set, so splits of trees with
 different leaf sets have no common identity to count against)."""
 import io
+import re
 import itertools
 import os
 import pickle
@@ -775,8 +777,12 @@ def _sumtrees_cli(case):
         paths = []
         for k, idxs in enumerate(case["files"]):
             p = os.path.join(d, "f%d.tre" % k)
+            text = P.newick(idxs, annotated=case.get("annotated", True))
+            if case.get("underscores"):
+                # every label gets an unquoted underscore (A -> A_sp); read with --preserve-underscores it is the label A_sp in every process
+                text = re.sub(r"(?<![&\w'])([A-J])(?![\w'])", r"\1_sp", text)
             with open(p, "w") as f:
-                f.write(P.newick(idxs, annotated=case.get("annotated", True)))
+                f.write(text)
             paths.append(p)
         extra = []
         if case.get("force") is True:
@@ -794,6 +800,13 @@ def _sumtrees_cli(case):
                 return None, "no result within 120 s"
             if pr.returncode != 0 or not os.path.exists(out):
                 return None, "exit %d: %s" % (pr.returncode, " ".join(pr.stdout.decode("utf8", "replace").split())[-300:])
+            if case.get("underscores"):
+                with open(out) as f:
+                    txt = f.read()
+                if "_sp" not in txt:
+                    return None, "the summary does not carry the labels of the sources (A_sp, ...): %s" % " ".join(txt.split())[:200]
+                with open(out, "w") as f:
+                    f.write(re.sub(r"'?([A-J])_sp'?", r"\1", txt))
             return _parse_summary(out, P), None
 
         ser, err = run("serial", [])
@@ -949,6 +962,7 @@ def gen_random_histories(rng, count, alphabet, scope, lmin, lmax):
         (True, "ultra", "none", {"ignore_edge_lengths": True, "ignore_node_ages": False}),
         (True, "ultra", "none", {"ignore_edge_lengths": True, "ignore_node_ages": True}),
         (True, "ultra", "mixed", {"ignore_edge_lengths": False, "ignore_node_ages": True}),
+        (True, "plain", "mixed", {"use_tree_weights": False}), (False, "plain", "mixed", {"use_tree_weights": False}),
     ]
     n = 0
     while n < count:
@@ -1040,6 +1054,11 @@ def gen_cli(scope):
             yield dict(scope=scope, nontrivial=True,
                        case=dict(what="sumtrees-cli", rooted=rooted, pool="plain", weights="none", settings={}, files=files,
                                  annotated=annotated, force=force, nproc=nproc, args=[]))
+    # labels with unquoted underscores, kept as they are (--preserve-underscores): the taxa a parallel run discovers up front are the taxa its workers read
+    for nproc in (1, 2, 3):
+        yield dict(scope=scope, nontrivial=True,
+                   case=dict(what="sumtrees-cli", rooted=True, pool="plain", weights="none", settings={}, files=files,
+                             annotated=True, force=True, nproc=nproc, args=["--preserve-underscores"], underscores=True))
 
 
 # ----------------------------------------------------------------------------- driver
@@ -1099,9 +1118,10 @@ def t2(ctx):
         % ("reduced" if quick else "full", len(la)), True, gen_histories(2, la, "leafsets,merges<=2", part))
     combos = [(True, "ultra", "none", {"ignore_edge_lengths": True, "ignore_node_ages": False}),
               (True, "ultra", "none", {"ignore_edge_lengths": True, "ignore_node_ages": True}),
-              (True, "ultra", "none", {"ignore_edge_lengths": False, "ignore_node_ages": True})]
+              (True, "ultra", "none", {"ignore_edge_lengths": False, "ignore_node_ages": True}),
+              (True, "plain", "mixed", {"use_tree_weights": False}), (False, "plain", "mixed", {"use_tree_weights": False})]
     run("settings<=2", "rooted ultrametric pool under the option combinations (ignore_edge_lengths, ignore_node_ages) = (T,F), (T,T), (F,T) "
-        "[(F,F) is in histories<=2]: every history of 1-2 operations over the %s alphabet (%d operations); per-split node-age multisets "
+        "[(F,F) is in histories<=2], and the weighted pools with use_tree_weights=False: every history of 1-2 operations over the %s alphabet (%d operations); per-split node-age multisets "
         "and the age summaries on the consensus tree against the per-tree oracle" % ("reduced" if quick else "full", len(la)), True,
         gen_histories(2, la, "settings<=2", combos))
     if not quick:
